@@ -23,12 +23,12 @@ RULES = {
     "C16": [("sa.rules.b3", "r_C16a"), ("sa.rules.c14", "r_ledger2"), ("sa.rules.c16", "r_cachekeys")],
     "C17": [("sa.rules.b3", "r_C03de_C11a_C17bc"), ("sa.rules.b6", "r_C17ad_C22b"), ("sa.rules.c05", "r_none_tests")],
     "C18": [("sa.rules.b4", "r_ledger"), ("sa.rules.c14", "r_ledger2")],
-    "C19": [("sa.rules.b6", "r_C19a_C01"), ("sa.rules.c16", "r_cachekeys")],
-    "C20": [("sa.rules.b1", "r_C20a"), ("sa.rules.b6", "r_C19a_C01"), ("sa.rules.c16", "r_cachekeys")],
-    "C21": [("sa.rules.b2", "r_C21a"), ("sa.rules.b6", "r_C19a_C01"), ("sa.rules.c16", "r_cachekeys")],
-    "C22": [("sa.rules.b6", "r_C19a_C01"), ("sa.rules.b6", "r_C17ad_C22b")],
-    "C23": [("sa.rules.b6", "r_C23")],
-    "C24": [("sa.peg", "r_C24"), ("sa.rules.c16", "r_cachekeys")],
+    "C19": [("sa.rules.b6", "r_C19a_C01"), ("sa.rules.c16", "r_cachekeys"), ("sa.rules.c22", "r_visitor")],
+    "C20": [("sa.rules.b1", "r_C20a"), ("sa.rules.b6", "r_C19a_C01"), ("sa.rules.c16", "r_cachekeys"), ("sa.rules.c22", "r_visitor")],
+    "C21": [("sa.rules.b2", "r_C21a"), ("sa.rules.b6", "r_C19a_C01"), ("sa.rules.c16", "r_cachekeys"), ("sa.rules.c22", "r_visitor")],
+    "C22": [("sa.rules.b6", "r_C19a_C01"), ("sa.rules.b6", "r_C17ad_C22b"), ("sa.rules.c22", "r_visitor")],
+    "C23": [("sa.rules.b6", "r_C23"), ("sa.rules.c22", "r_visitor"), ("sa.rules.c22", "r_C23g_C24d")],
+    "C24": [("sa.peg", "r_C24"), ("sa.rules.c16", "r_cachekeys"), ("sa.rules.c22", "r_C23g_C24d")],
     "C25": [("sa.rules.b2", "r_C25")],
     "C26": [("sa.rules.b2", "r_C26a"), ("sa.rules.b2", "r_C26bcdef")],
     "C27": [("sa.rules.b1", "r_C27")],
@@ -54,6 +54,8 @@ ALSO = {
     "C09": {"C07": ("C07.b",)},
     # error locations of list references come from the element positions (C08.c); line/col arithmetic (C06.d)
     "C28": {"C08": ("C08.c",), "C06": ("C06.c", "C06.d")},
+    # eolterm/sep modifiers not installed -> the memoized and the plain parser disagree on the repetition's extent
+    "C19": {"C01": ("C01.b",)},
     # base type conversion: with use_regexp_group the converted text is decided by C01.g
     "C04": {"C01": ("C01.g",)},
     # C01.c (rule modifiers on an expression that ignores them) is the whitespace clause of C22 as well
